@@ -1,6 +1,5 @@
-//! C03 — not implemented yet.
+//! C03 — placeholder while C04 is brought up.
 use vmon::report::Args;
-
 pub fn run(_args: &Args) -> i32 {
     eprintln!("HARNESS-ERROR C03 not implemented");
     2
